@@ -79,6 +79,10 @@ def dupFree (xs : List String) : Bool :=
 def handleC14Bdd (fields : List String) : Verdict :=
   match fields with
   | [pdump, rootId, names, nA, eA, nT, eT, nF, eF] =>
+    if nA == "PANIC" || nT == "PANIC" || nF == "PANIC" then
+      { modelOk := false, modelOut := "a DOT graph",
+        oracle := some "a diagram export panicked, or what was written is not a DOT graph that can be read back (text after the closing brace, a malformed line)" }
+    else
     match parsePBDD pdump, parseVarTable names, parseRNodes nA, parseREdges eA, parseRNodes nT, parseREdges eT,
         parseRNodes nF, parseREdges eF with
     | some p, some names, some nA, some eA, some nT, some eT, some nF, some eF =>
@@ -215,6 +219,9 @@ def unhexStr (s : String) : Option String := (unhex s).bind String.fromUTF8?
 /-- `tree|ast|names (hexname:id,…)|nodes (id=hexlabel,…)|edges (src>dst:hexlabel,…)` -/
 def handleC14Tree (fields : List String) : Verdict :=
   match fields with
+  | [_, _, "PANIC-OR-UNREADABLE", _] =>
+    { modelOk := false, modelOut := "a DOT graph",
+      oracle := some "the parse-tree export panicked, or what was written is not a DOT graph that can be read back (text after the closing brace, a malformed line)" }
   | [ast, names, ns, es] =>
     match parseFormula ast, parseVarTable names, parseRNodes ns, parseREdges es with
     | some f, some names, some ns, some es =>
